@@ -12,10 +12,11 @@ Proof. vunfold; runfold; reflexivity. Qed.
 (* Et = t sin(theta):  Et^2 = t^2 rho^2 / (rho^2 + z^2) *)
 Lemma Et2_def (x y z t : R) : numr (T_lorentz_Et2 XY LZ TT x y z t) = Some (t * t * (x * x + y * y) / (x * x + y * y + z * z)).
 Proof. vunfold; runfold; reflexivity. Qed.
-Lemma Et_is_t_sin_theta (x y z t : R) : 0 <= t -> 0 < x * x + y * y ->
+Lemma Et_is_t_sin_theta (x y z t : R) : 0 < x * x + y * y ->
   exists th, is_theta (sqrt (x * x + y * y)) z th /\ numr (T_lorentz_Et XY LZ TT x y z t) = Some (t * sin th).
 Proof.
-  intros Ht Hr. destruct (theta_spec XY LZ x y z Hr I) as [th [_ Hth]]. cbn [srho sz] in Hth.
+  (* for every sign of t: the Cartesian variant carries the sign of t (copysign), as t sin(theta) does *)
+  intros Hr. destruct (theta_spec XY LZ x y z Hr I) as [th [_ Hth]]. cbn [srho sz] in Hth.
   exists th. split; [exact Hth|]. vunfold; runfold; cbn [numr]. f_equal.
   destruct Hth as [[H0 Hpi] [Hc Hs]]. set (r := sqrt (x * x + y * y)) in *.
   assert (Hr0 : 0 < r) by (apply sqrt_lt_R0; exact Hr). assert (Hrr : r * r = x * x + y * y) by (apply sqrt_sqrt; lra).
@@ -23,8 +24,14 @@ Proof.
   assert (Hmm : m * m = r * r + z * z) by (apply sqrt_sqrt; nra).
   assert (Hsin : sin th = r / m) by (rewrite <- Hs; field; lra).
   rewrite Hsin. replace (x * x + y * y + z * z) with (m * m) by lra. rewrite <- Hrr.
-  replace (t * t * (r * r) / (m * m)) with ((t * (r / m)) * (t * (r / m))) by (field; lra).
-  apply sqrt_square. apply Rmult_le_pos; [exact Ht|]. apply Rmult_le_pos; [lra | left; apply Rinv_0_lt_compat; exact Hm].
+  assert (Hk : 0 <= r / m) by (apply Rlt_le, Rdiv_lt_0_compat; lra).
+  replace (t * t * (r * r) / (m * m)) with ((Rabs t * (r / m)) * (Rabs t * (r / m))).
+  2:{ replace (Rabs t * (r / m) * (Rabs t * (r / m))) with ((Rabs t * Rabs t) * (r * r) / (m * m)) by (field; lra).
+      replace (Rabs t * Rabs t) with (t * t); [reflexivity|]. unfold Rabs; destruct (Rcase_abs t); ring. }
+  rewrite sqrt_square by (pose proof (Rabs_pos t); nra).
+  unfold Rcopysign. pose proof (Rabs_pos t) as Hab. destruct (Rlt_dec t 0) as [Hneg|Hpos].
+  - rewrite (Rabs_right (Rabs t * (r / m))) by nra. rewrite (Rabs_left t) by lra. ring.
+  - rewrite (Rabs_right (Rabs t * (r / m))) by nra. rewrite (Rabs_right t) by lra. ring.
 Qed.
 Lemma beta_def (x y z t : R) : numr (T_lorentz_beta XY LZ TT x y z t) = Some (sqrt (x * x + y * y + z * z) / t).
 Proof. vunfold; runfold; reflexivity. Qed.
